@@ -27,6 +27,7 @@ RULE = (
     'inputs make memoized APIs raise ValueError (not RecursionError). Non-trivial: >=1 object '
     'with >=2 paths and >=1 of {named tuple, defaultdict, Box, positional Buildable argument}.'
 )
+RULE += (' ' + 'Also checked: get_all_paths for values without identity (paths of the nearest identity-bearing container plus suffix) and, after a shared container was appended to another list since the cache was filled, get_all_paths(allow_caching=False) on states collected before (leaves of the affected container first).')
 ASSUMPTIONS = [
     'reference walk harness/canon.walk + Box wrapper expansion in this file',
     'paths through a Box (whose children are temporaries by design) are excluded from the '
